@@ -1,6 +1,7 @@
 # reg and TB_COMMON are injected by lib/props.py
 # composite of the three algorithm parts; the Coq assembly is coq/C08/Glue.v + coq/Props/C06.v
 reg(id="C06",
+    gen=["globals"],
     parts=["CS3G", "CZUC", "CAES"],
     harness=False,
     model_targets=[],
